@@ -191,6 +191,32 @@ def run(tier: str) -> int:
     with open(wd / "records.json", "w") as f:
         json.dump(records, f)
 
+    # "for every method": the constructor folds the case of the method name; a spelling it accepts names the same
+    # catalogue entry, so it must hand out the very grid judged above (same points, same weights)
+    for m, t in tabs.items():
+        degs = sorted(d for d, s in t["deg"] if s <= 600)
+        for d in sorted(set(degs[:2] + degs[-1:])):
+            try:
+                ref = _grid(m, d)
+            except Exception:
+                continue   # reported above
+            for spelled in (m.upper(), m.title(), m.capitalize()):
+                try:
+                    g = _grid(spelled, d)
+                except ValueError:
+                    continue   # a spelling the constructor rejects is no grid at all
+                except Exception as ex:
+                    rep.violation(f"{m}:spelling:{spelled}", f"AngularGrid(degree={d}, method={spelled!r}) raised {type(ex).__name__}: {ex}",
+                                  {"method": spelled, "degree": d})
+                    continue
+                rep.evaluated(1, ("spelling", spelled, d))
+                if not (np.array_equal(g.points, ref.points) and np.array_equal(g.weights, ref.weights) and g.degree == ref.degree):
+                    rep.violation(f"{m}:spelling:{spelled}",
+                                  f"AngularGrid(degree={d}, method={spelled!r}) is accepted but is not the grid of method {m!r}: "
+                                  f"SUM w = {float(np.sum(g.weights))!r} vs {float(np.sum(ref.weights))!r}, "
+                                  f"max |dp| = {float(np.max(np.abs(np.asarray(g.points) - np.asarray(ref.points)))) if g.points.shape == ref.points.shape else 'shape'}",
+                                  {"method": spelled, "degree": d})
+
     # ---- 4. TLC judges the accounting ---------------------------------------------------------------
     _records_module(wd, tier, extra, "records.json")
     r1 = tlc.run_tlc("AngularCatalogue", "MC_AngularCatalogue_accounting.cfg", wd, workers=4, timeout=600).require_ok("accounting")
